@@ -552,7 +552,7 @@ def stmt(draw, env, depth, loop=False, in_sub=False):
     if depth > 0 and env.flavor != "conc":
         choices += ["if"] * 3 + ["match", "forbreak"]
         if env.helpers:
-            choices += ["call"]
+            choices += ["call"] * 3
         if env.flavor in ("seq", "coro"):
             choices += ["localsig", "localvar", "always"]
     if coro:
@@ -601,7 +601,12 @@ def stmt(draw, env, depth, loop=False, in_sub=False):
         args = [draw(vec_expr(env, 1)) for _ in h["params"]]
         name = env.fresh("hv")
         env.loc_vecs.append(name)
-        return {"k": "call", "helper": hi, "args": args, "bind": name}
+        call = {"k": "call", "helper": hi, "args": args, "bind": name}
+        tg = [n for n in env.sig_vecs if n not in env.push and not n.startswith("ls")]
+        if tg and draw(st.booleans()):
+            # use the merged return value right away
+            return {"k": "seq", "body": [call, {"k": "assign", "t": {"name": draw(st.sampled_from(tg))}, "e": ["loc", name]}]}
+        return call
     if k == "localsig":
         name = env.fresh("ls")
         if draw(st.booleans()):
@@ -812,7 +817,7 @@ def design(draw, flavor, reset=None, max_stmts=5, depth=2):
             outputs[-1]["noreset"] = True  # excluded from reset, but still returns to its default after a push
     spec = {"W": W, "inputs": inputs, "outputs": outputs, "sigs": sigs, "vars": vars_,
             "ctx": {"type": flavor, "reset": reset}, "helpers": [], "subs": []}
-    if flavor != "conc" and draw(st.integers(0, 2)) == 0:
+    if flavor != "conc" and draw(st.integers(0, 1)) == 0:
         spec["helpers"] = [draw(helper_def(0, W))]
     env = Env(spec, flavor)
     if flavor == "coro" and draw(st.integers(0, 1)) == 0:
